@@ -215,3 +215,18 @@ def _join_all(src):
 
 
 register("srv_join_all", span_custom(_J, _join_all))
+
+
+def _system_stop(src):
+    """the end of the `Stop` arm of `handle_cmd`: the actix System is stopped only if there is one (`System::try_current()`):
+    on a plain Tokio runtime a stop that asks for a system stop (any OS signal, `system_exit()`) still lets `run` return"""
+    m = re.search(r"async fn handle_cmd\b.*?\n    \}\n", src, re.S)
+    body = m.group(0) if m else ""
+    ok = bool(m and re.search(
+        r"if self\.system_stop \|\| force_system_stop \{\s*sleep\(Duration::from_millis\(300\)\)\.await;\s*"
+        r"System::try_current\(\)\.as_ref\(\)\.map\(System::stop\);\s*\}", body)
+        and not re.search(r"System::current\(\)", src))
+    return "def hcSystemStopIfAny : Bool := %s" % ("true" if ok else "false"), body or src[:200]
+
+
+register("srv_handle_system_stop", span_custom(_S, _system_stop))
